@@ -51,6 +51,12 @@ func vByLong(name string) int { // name without the two dashes
 	return -1
 }
 
+// vSharedDefault is a default slice handed to several declarations (and to several
+// applications): the library must never write through it. vResetShared re-creates it.
+var vSharedDefault []string
+
+func vResetShared() { vSharedDefault = []string{"p", "q"} }
+
 // vDiscard swallows the library's diagnostics.
 type vDiscard struct{}
 
@@ -83,12 +89,14 @@ type vOutcome struct {
 
 type vAppCfg struct {
 	spec     string
-	envE     bool   // -e declared with EnvVar VE
-	envAll   bool   // every option declared with an EnvVar (VA VB VO VE)
+	envE     bool // -e declared with EnvVar VE
+	envAll   bool // every option declared with an EnvVar (VA VB VO VE)
 	policy   flag.ErrorHandling
 	noAction bool
 	declMask int  // bits 0..5: declare a, b, o, e, X, Y (0 = everything)
 	wantHelp bool // also capture PrintHelp output
+	argEnv   bool // arguments X, Y declared with EnvVar VX, VY
+	shared   bool // -o and -e (and X, Y) declared with the same non-empty default slice
 }
 
 // vRunTable builds the real application over the declaration table and runs it.
@@ -118,17 +126,27 @@ func vRunTable(cfg vAppCfg, argv []string) (out vOutcome) {
 	if mask&2 != 0 {
 		b = app.Bool(BoolOpt{Name: "b bb", EnvVar: envOf("VB"), SetByUser: &user[oB]})
 	}
+	var defO, defX []string
+	if cfg.shared {
+		defO, defX = vSharedDefault, vSharedDefault
+	}
+	argEnvOf := func(n string) string {
+		if cfg.argEnv {
+			return n
+		}
+		return ""
+	}
 	if mask&4 != 0 {
-		o = app.Strings(StringsOpt{Name: "o oo", EnvVar: envOf("VO"), SetByUser: &user[oO]})
+		o = app.Strings(StringsOpt{Name: "o oo", Value: defO, EnvVar: envOf("VO"), SetByUser: &user[oO]})
 	}
 	if mask&8 != 0 {
-		e = app.Strings(StringsOpt{Name: "e ee", EnvVar: envOf("VE"), SetByUser: &user[oE]})
+		e = app.Strings(StringsOpt{Name: "e ee", Value: defO, EnvVar: envOf("VE"), SetByUser: &user[oE]})
 	}
 	if mask&16 != 0 {
-		x = app.Strings(StringsArg{Name: "X"})
+		x = app.Strings(StringsArg{Name: "X", Value: defX, EnvVar: argEnvOf("VX")})
 	}
 	if mask&32 != 0 {
-		y = app.Strings(StringsArg{Name: "Y"})
+		y = app.Strings(StringsArg{Name: "Y", Value: defX, EnvVar: argEnvOf("VY")})
 	}
 	cp := func(p *[]string) []string {
 		if p == nil {
@@ -242,23 +260,27 @@ const (
 	shPos = iota
 	shDash
 	shDD
-	shFlagShort   // -a
-	shFlagLong    // --aa
-	shFlagShortEq // -a=p
-	shFlagLongEq  // --aa=p
-	shValSep      // -o p
-	shValAtt      // -op
-	shValEq       // -o=p
-	shValLongSep  // --oo p
-	shValLongEq   // --oo=p
-	shFold2       // -ab / -ba
-	shFoldVal     // -ao p  (fold ending in a valued option, separate value)
-	shFoldValAtt  // -aop
-	shUndeclShort // -z
-	shUndeclLong  // --zz
-	shValMissing  // -o at the very end / followed by nothing usable
-	shLongEqEmpty // --oo=
-	shUndeclEq    // -z=p
+	shFlagShort    // -a
+	shFlagLong     // --aa
+	shFlagShortEq  // -a=p
+	shFlagLongEq   // --aa=p
+	shValSep       // -o p
+	shValAtt       // -op
+	shValEq        // -o=p
+	shValLongSep   // --oo p
+	shValLongEq    // --oo=p
+	shFold2        // -ab / -ba
+	shFoldVal      // -ao p  (fold ending in a valued option, separate value)
+	shFoldValAtt   // -aop
+	shUndeclShort  // -z
+	shUndeclLong   // --zz
+	shValMissing   // -o at the very end / followed by nothing usable
+	shLongEqEmpty  // --oo=
+	shUndeclEq     // -z=p
+	shFold3        // -aab: three folded flags
+	shLongMissing  // --oo at the very end / followed by nothing usable
+	shPosEmpty     // an empty positional token
+	shFoldDashLong // -a-bb: a flag glued to what would be a long option once the flag is removed
 	nShapes
 )
 
@@ -282,8 +304,8 @@ func vTemplateArgv(maxItems, lp int, shapes []int) []string {
 	return argv
 }
 
-func vFlagSel() int  { return oA + vChoice("flag", 2) }
-func vValSel() int   { return oO + vChoice("val", 2) }
+func vFlagSel() int         { return oA + vChoice("flag", 2) }
+func vValSel() int          { return oO + vChoice("val", 2) }
 func vShortOf(o int) string { return string([]byte{vOptTable[o].short}) }
 
 func vShapeTokens(sh int, lp int) []string {
@@ -343,9 +365,22 @@ func vShapeTokens(sh int, lp int) []string {
 		return []string{"--" + vOptTable[vValSel()].long + "="}
 	case shUndeclEq:
 		return []string{"-z=" + vNondetString("payload", lp)}
+	case shFold3:
+		f := vFlagSel()
+		g := vFlagSel()
+		return []string{"-" + vShortOf(f) + vShortOf(f) + vShortOf(g)}
+	case shLongMissing:
+		return []string{"--" + vOptTable[vValSel()].long}
+	case shPosEmpty:
+		return []string{""}
+	case shFoldDashLong:
+		f := vFlagSel()
+		g := vChoice("anyopt", nOpts)
+		return []string{"-" + vShortOf(f) + "-" + vOptTable[g].long}
 	}
 	return nil
 }
 
 var vAllShapes = []int{shPos, shDash, shDD, shFlagShort, shFlagLong, shFlagShortEq, shFlagLongEq, shValSep, shValAtt, shValEq,
-	shValLongSep, shValLongEq, shFold2, shFoldVal, shFoldValAtt, shUndeclShort, shUndeclLong, shValMissing, shLongEqEmpty, shUndeclEq}
+	shValLongSep, shValLongEq, shFold2, shFoldVal, shFoldValAtt, shUndeclShort, shUndeclLong, shValMissing, shLongEqEmpty, shUndeclEq,
+	shFold3, shLongMissing, shPosEmpty, shFoldDashLong}
